@@ -39,3 +39,12 @@ pub use pusher::*;
 pub(crate) use registries::*;
 pub use reports::*;
 pub(crate) use sealed::*;
+
+// Verification hook (H2): harness code lives outside the repository and is only compiled by the
+// model checker (`cfg(kani)`) or by native counterexample replays (`--cfg folo_verif`).
+#[cfg(any(kani, folo_verif))]
+#[doc(hidden)]
+#[allow(warnings, clippy::all, clippy::pedantic, clippy::nursery, clippy::restriction)]
+pub mod folo_verif {
+    include!(concat!(env!("FOLO_VERIF_DIR"), "/kani/nm_impl/harness.rs"));
+}
